@@ -18,7 +18,7 @@ import (
 func init() { checks["C09"] = c09 }
 
 var cmdFailModes = []string{"exit-before-write", "exit-mid-write", "exit-after-write", "sigkill-self", "sigsegv-self", "omit-output", "wrong-place", "sigkill-shell", "sigterm-shell"}
-var goFailModes = []string{"exit-before-write", "exit-mid-write", "exit-after-write", "omit-output", "wrong-place"}
+var goFailModes = []string{"exit-before-write", "exit-mid-write", "exit-after-write", "omit-output", "wrong-place", "panic-mid-write", "panic-after-write"}
 
 // dependants returns the keys of all tasks that (transitively) consume an output of f.
 func dependants(exp *ref.Result, f *ref.Task) map[string]bool {
@@ -400,6 +400,8 @@ func classOf(mode string) string {
 		return "command-killed-by-signal"
 	case "omit-output", "wrong-place":
 		return "output-not-produced"
+	case "panic-mid-write", "panic-after-write":
+		return "go-function-panic"
 	case "empty-param", "missing-tag", "path-space", "path-colon", "path-empty":
 		return "task-unformable"
 	case "path-name-too-long", "path-through-regular-file":
